@@ -49,6 +49,37 @@ def _incomplete_source():
     return pat, flags, mx
 
 
+def _held_lifecycle():
+    """measured on live channel objects (sync and asyncio twin) over a do-nothing transport: does `open()` start a session with nothing
+    held back from an earlier one, whatever happened before (the timeout handler closes the TRANSPORT only, `Channel.close()` need not
+    have run)?  None = the code has no hold-back at all"""
+    from vlib.common import use_repo
+    use_repo()
+    from scrapli.channel import AsyncChannel, Channel
+    from scrapli.channel.base_channel import BaseChannelArgs
+
+    from scrapli.transport.base.base_transport import BaseTransportArgs
+
+    class _T:
+        _base_transport_args = BaseTransportArgs(transport_options={}, host="probe")
+
+        def write(self, b):
+            pass
+
+    res = []
+    for cls in (Channel, AsyncChannel):
+        ch = cls(transport=_T(), base_channel_args=BaseChannelArgs())
+        if not hasattr(ch, "_ansi_held"):
+            return None
+        ch._ansi_held = b"\x1b["
+        try:
+            ch.open()
+        except Exception as exc:       # noqa: BLE001
+            raise TranslateError(f"{cls.__name__}.open() on a probe channel raised {exc!r}")
+        res.append(ch._ansi_held == b"")
+    return all(res)
+
+
 def lean_bytes(b):
     return "[" + ", ".join(str(x) for x in b) + "]"
 
@@ -73,5 +104,9 @@ def generate():
              "    `incompleteAfter` mirrors, no flags; `none` = the source has no such pattern (code before the fix) -/\n")
     body += f"def incompletePatternIsPinned : Bool := {'true' if (ipat == INCOMPLETE_PINNED and not iflags) else 'false'}\n"
     body += f"def heldMaxSource : Option Nat := {'none' if imax is None else 'some ' + str(int(imax))}\n"
+    fresh = _held_lifecycle()
+    body += ("/-- measured on live Channel and AsyncChannel objects: `open()` leaves nothing held back from an earlier session (whether or\n"
+             "    not `close()` ran in between); `none` = no hold-back in this code -/\n")
+    body += f"def openDropsHeld : Option Bool := {'none' if fresh is None else 'some ' + ('true' if fresh else 'false')}\n"
     body += "end Scrapli.Gen.Chan\n"
     return [("ScrapliModel/Gen/ChanConsts.lean", body)]
